@@ -248,6 +248,39 @@ def check(ctx):
              'the last (partial) packet is sent after the loop, on every path through upload_buffer (no early exit: a "same data as last time" short cut leaves the '
              'bootloader buffer of a restarted or different board unfilled)')
 
+    # ---- R1: the geometry the size test uses is the asked target's: _update_info takes only an answer that names that target -----
+    ui = m.func(CL, 'Cloader._update_info')
+    gu = cfg_of(ui)
+    tid = ui.params[1]
+    geo_st = [n for n in gu.nodes if n.kind == 'stmt' and isinstance(n.ast, ast.Assign) and isinstance(n.ast.targets[0], ast.Attribute) and n.ast.targets[0].attr in GEO]
+    ctx.need(len(geo_st) >= 3, '_update_info: geometry stores not found')
+    want_any = [{fact_key("struct.unpack('<BB', answer.data[0:2]) == (%s, 16)" % tid, True)},
+                {fact_key('answer.data[0] == %s' % tid, True), fact_key('answer.data[1] == 16', True)}]
+    for n in geo_st:
+        keys = set(gu.fact_keys_at(n))
+        ctx.inst('R1', ui, 'geometry-from-the-asked-target:' + n.ast.targets[0].attr, any(w <= keys for w in want_any),
+                 '%s is stored only from an answer whose first bytes are (%s, 0x10): an answer of another target (or a late one) carries another flash size' %
+                 (norm(n.ast.targets[0]), tid), line=n.ast.lineno)
+
+    # ---- R5: the image that is flashed is the file: every FlashArtifact is built from bytes as they were read (or from a literal) -----
+    n_art = 0
+    for fn_ in m.mod(BL).all_funcs():
+        arts = [c for c in walk_own(fn_.node) if isinstance(c, ast.Call) and dotted(c.func) == 'FlashArtifact' and c.args]
+        if not arts:
+            continue
+        ga = cfg_of(fn_)
+        for c in arts:
+            nd = ga.node_of(c)
+            src = norm(ga.expand_locals(nd, c.args[0], pure_only=False)) if nd is not None else norm(c.args[0])
+            e_ = ast.parse(src, mode='eval').body
+            # a plain read of the whole file (zf.read(name), open(..).read(), read_binary(..)) or a literal fill pattern
+            plain = (isinstance(e_, ast.Call) and (norm(e_.func).endswith('.read') or norm(e_.func).split('.')[-1] == 'read_binary')) or \
+                (isinstance(e_, ast.BinOp) and isinstance(e_.op, ast.Mult) and isinstance(e_.left, ast.List))
+            n_art += 1
+            ctx.inst('R5', fn_, 'image-is-the-file-as-read:%d' % n_art, plain, 'FlashArtifact content = %s: the bytes written must be exactly the bytes of the image file (nothing stripped, '
+                     'padded or re-encoded on the way)' % src[:80], line=c.lineno)
+    ctx.need(n_art >= 3, 'FlashArtifact constructions not found (%d)' % n_art)
+
     # ---- R5 / R6: page loop ---------------------------------------------------------------
     loops = [n for n in g.nodes if n.kind == 'for' and any(x is ups[0][0] for x in g.loop_body_nodes(n))]
     ctx.need(len(loops) == 1, '_internal_flash: page loop not found')
